@@ -68,7 +68,7 @@ def perms_for(n, tier, rnd):
         if p != ident and p not in out: out.append(p)
     return out
 
-def perm_family(name, reg0, perms, dedup):
+def perm_family(name, reg0, perms, dedup, ST=ST):
     def mk(eng):
         k = eng.choose([(i, True) for i in range(len(perms))])
         return symbolize_leaves(eng, reg0), perms[k]
@@ -137,6 +137,14 @@ def families(eng, tier, seed):
         reg = strip_segment(r, ("v1", "v2")) if n == "versions" else r
         ps = perms_for(len(reg), tier, rnd)
         if ps: fams.append(perm_family("perm-%s" % n, reg, ps, dd))
+        ips = []
+        for t in reg:
+            if len(t["path"]) >= 2 and t["def"][0] in ("composite", "variant") and t["path"] not in ips: ips.append(t["path"])
+        if ps and len(ips) >= 2 and not dd:
+            # two recursive derive roots with different derives (registry order must not matter for who inherits what)
+            for (a, b) in ([(ips[0], ips[-1]), (ips[1], ips[-1])] if len(ips) > 2 else [(ips[0], ips[1])]):
+                st2 = ST + Settings(["derive_rec %s => RecA" % "::".join(a), "derive_rec %s => RecB" % "::".join(b), "attrtok_rec %s => ra" % "::".join(b)])
+                fams.append(perm_family("perm-recderives-%s-%s-%s" % (n, a[-1], b[-1]), reg, ps[:8] if tier == "quick" else ps, dd, ST=st2))
         roots = user_ids(reg)
         if roots and not dd: fams.append(restrict_family("restrict-%s" % n, reg, roots, dd))
     return fams
